@@ -53,6 +53,9 @@ def generate(seed, stratum, tier):
   sc = cc.gen_chart_scenario(rng, combos=[(host, build)], ops=ops, weights=weights, nops=(3, 25), flags=False,
                              spec_kw={'nstates': rng.randrange(2, 9), 'p_react': 0.7})
   sc['live_spy'], sc['live_trace'] = rng.choice([(True, True), (True, False), (False, True), (False, True)])
+  if rng.random() < 0.3:
+    # a small trace ring: it is full, and wraps, within the history
+    sc['rings'] = {'trc': rng.choice([2, 3, 5])}
   if stratum == 'fine-clock':
     sc['clock'] = {'kind': 'fine'}
   else:
